@@ -57,8 +57,27 @@ class _DM:
         self.spectral_axis_scale = kw.get("scale", 1)
 
 
+class _C:
+    """Concrete complex number with the .re / .im interface of SymComplex (native evaluation of the closed form)."""
+
+    def __init__(self, z):
+        self.z = complex(z)
+        self.re, self.im = self.z.real, self.z.imag
+
+    def __add__(self, o):
+        return _C(self.z + o.z)
+
+
 def osc_closed_form(tau, k_re, k_im, sigma, sign, scale):
     """scale · exp((-τ + kσ²/2)k)(1 + erf((τ - kσ²)/(±√2σ)))  with k = k_re + i k_im."""
+    from pyvc.sym import is_sym as _is_sym
+
+    if not any(_is_sym(x) for x in (tau, k_re, k_im, sigma, scale)):
+        from scipy.special import erf as _cerf
+
+        kc = complex(float(k_re), float(k_im))
+        dkc = kc * float(sigma) ** 2
+        return _C(np.exp((-float(tau) + 0.5 * dkc) * kc) * (1 + _cerf((float(tau) - dkc) / (sign * np.sqrt(2) * float(sigma)))) * float(scale))
     k = SymComplex(k_re, k_im)
     d = sigma * sigma
     dk = k * d
@@ -194,6 +213,24 @@ def _decide(cond, S):
     if isinstance(cond, (bool, np.bool_)):
         return bool(cond)
     return sym.CUR.decide(cond)
+
+
+def _oscillation_sweep(self, tier, seed):
+    from contracts.common import native_sweep
+
+    cases = [{"irf": irf, "n": n, "gaussians": (1 if irf == "none" else 3), "rates": "nonneg"} for irf in ("none", "plain", "shift") for n in (4, 6)]
+
+    def env(case, rng):
+        e = {f"f_{i}": round(rng.uniform(0.5, 20.0), 3) for i in range(case["n"])}
+        e.update({f"g_{i}": round(rng.uniform(0.0, 2.0), 3) for i in range(case["n"])})
+        for nm in ("w", "s"):
+            e.update({f"{nm}_{i}": round(rng.uniform(0.1, 0.6), 3) for i in range(3)})
+        return e
+
+    return native_sweep(self, cases, envs=env, tries=3, seed=seed)
+
+
+DampedOscillation.bounded_checks = _oscillation_sweep
 
 
 class Pfid(Contract):
